@@ -6,6 +6,7 @@ import SfVerif.Lemmas.Lazy7
 import SfVerif.Lemmas.Ctx5
 import SfVerif.Lemmas.DocLink7
 import SfVerif.Lemmas.GenMarkers
+import SfVerif.Lemmas.GenReadEntry
 /-! C01 — lazy reads equal eager decoding for every document and access history. -/
 namespace SfVerif.Props.C01
 open SfVerif SfVerif.Gen
@@ -288,5 +289,12 @@ example : WF #[0x92, 0x91, 1, 0x81, 0xa1, 0x61, 2] ∧
     the cursor's fixed-width readers are checked for their width, bounds check and byte order -/
 theorem C01_header_reader_is_the_source_text (b : Bytes) (p m : Nat) : hdrOfMarkerGen b p m = hdrOfMarker b p m :=
   gen_hdrOfMarker_eq b p m
+
+/-- **tie by translation**: the scope dispatch of the read entry points (which decoded kinds are
+    accepted, which node operation is run, which codes answer a wrong kind / an undecodable
+    scope, `Ok(None)` → null) is regenerated from provider/src/read.rs and equal to the model's -/
+theorem C01_entry_dispatch_is_the_source_text (c : Ctx) (s : Scope) (i : Nat) (q : Bytes) :
+    getAtIndexGen c s i = c.getAtIndex s i ∧ getKeyAtIndexGen c s i = c.getKeyAtIndex s i ∧
+    getObjPropGen c s q = c.getObjProp s q := gen_read_entries_eq c s i q
 
 end SfVerif.Props.C01
